@@ -493,6 +493,22 @@ func (in *Interp) callSSA(caller *frame, fn *ssa.Function, args []Value, env []V
 		fr.thread = caller.thread
 		fr.depth = caller.depth + 1
 		if fr.depth > maxDepth {
+			same, rec := 0, fn
+			cnt := map[*ssa.Function]int{}
+			for c := caller; c != nil; c = c.caller {
+				cnt[c.fn]++
+				if cnt[c.fn] > same {
+					same, rec = cnt[c.fn], c.fn
+				}
+			}
+			if same >= 40 {
+				// the same function 40 times on one stack with no symbolic decision left
+				// to end it: the real program exhausts its stack (a fatal error, not a
+				// recoverable panic)
+				in.reportViolation(in.harness+".no-unbounded-recursion", "", caller.site(), "fatal",
+					"unbounded recursion through "+rec.String()+" (stack exhaustion is a fatal error)", nil)
+				panic(pathEnd{"unbounded recursion"})
+			}
 			panic(pathAbort{"call depth exceeded in " + fn.String()})
 		}
 	}
